@@ -118,8 +118,9 @@ type call struct {
 type dohRT struct {
 	mu      sync.Mutex
 	book    *peer.Book
-	pending map[string]chan []byte // qname -> body to answer with
-	arrived map[string][]byte      // qname -> query wire
+	pending map[string]chan []byte   // qname -> body to answer with
+	arrived map[string][]byte        // qname -> query wire
+	reqs    map[string]*http.Request // DoH: qname -> the request as handed to RoundTrip (its URL is read again when the reply is produced)
 }
 
 func (rt *dohRT) RoundTrip(req *http.Request) (*http.Response, error) {
@@ -133,6 +134,9 @@ func (rt *dohRT) RoundTrip(req *http.Request) (*http.Response, error) {
 	rt.mu.Lock()
 	rt.pending[name] = ch
 	rt.arrived[name] = q
+	if rt.reqs != nil {
+		rt.reqs[name] = req
+	}
 	rt.mu.Unlock()
 	select {
 	case body := <-ch:
@@ -361,7 +365,7 @@ func runCase(c Case, ctx *hx.Ctx) *hx.Failure {
 		}
 		eng = upEngine{u}
 	case "doh":
-		rt = &dohRT{book: w.Book, pending: map[string]chan []byte{}, arrived: map[string][]byte{}}
+		rt = &dohRT{book: w.Book, pending: map[string]chan []byte{}, arrived: map[string][]byte{}, reqs: map[string]*http.Request{}}
 		u, err := doh.NewUpstream("https://doh.c01.test/dns-query", rt, nil)
 		if err != nil {
 			return hx.Failf("C01/harness", "%v", err)
@@ -433,7 +437,15 @@ func runCase(c Case, ctx *hx.Ctx) *hx.Failure {
 		if rt != nil {
 			rt.mu.Lock()
 			q, ch := rt.arrived[cl.name], rt.pending[cl.name]
+			req := rt.reqs[cl.name]
 			rt.mu.Unlock()
+			if req != nil {
+				// a real HTTP transport serialises the request some time after RoundTrip was entered (once it has a
+				// connection): the server answers what the request says then, which is read from the request only now
+				if b, err := base64.RawURLEncoding.DecodeString(req.URL.Query().Get("dns")); err == nil {
+					q = b
+				}
+			}
 			r, _, err := w.Book.Reply(0, q, 0)
 			if err != nil {
 				return hx.Failf("C01/harness", "reply: %v", err)
